@@ -191,12 +191,20 @@ func checkBudget(r *Run, prog *Program, a *Anchors, pfx string) {
 	okCmp := false
 	if cmp != nil && cmp.Block() == counter.Blocks[0] {
 		ldM, isLd := cmp.Y.(*ssa.UnOp)
+		cmpOp := cmp.Op
+		if ldX, isLdX := cmp.X.(*ssa.UnOp); isLdX {
+			// `budget < counter` is `counter > budget`
+			if fa, isFA := ldX.X.(*ssa.FieldAddr); isFA && fieldName(fa.X.Type(), fa.Field) == budgetField {
+				ldM, isLd = ldX, true
+				cmpOp = map[token.Token]token.Token{token.LSS: token.GTR, token.LEQ: token.GEQ, token.GTR: token.LSS, token.GEQ: token.LEQ}[cmp.Op]
+			}
+		}
 		if isLd {
 			if fa, isFA := ldM.X.(*ssa.FieldAddr); isFA && fieldName(fa.X.Type(), fa.Field) == budgetField {
 				if ifi, isIf := cmp.Block().Instrs[len(cmp.Block().Instrs)-1].(*ssa.If); isIf && ifi.Cond == ssa.Value(cmp) {
 					// the edge on which the counter exceeds the budget
 					exceeded := -1
-					switch cmp.Op {
+					switch cmpOp {
 					case token.GTR, token.GEQ:
 						exceeded = 0
 					case token.LEQ, token.LSS:
